@@ -26,6 +26,10 @@ func DeriveRFC4226Wasm(secret []byte, counter uint64, digits int, algo Algorithm
 		return "", ErrUnsupportedAlgorithm
 	}
 
+	if digits < 1 || digits > 10 {
+		return "", ErrInvalidCodeLength
+	}
+
 	var buf [8]byte
 	binary.BigEndian.PutUint64(buf[:], counter)
 
